@@ -163,7 +163,10 @@ def gen_graph(rng, tier):
                 cost = rng.randint(0, R) ** 2 if rng.random() < 0.5 else rng.randint(0, R * R)
             cs.append((d, cost))
         srcs.append(cs)
-    return dict(srcs=srcs, nd=nd, R2=R * R, strategy=rng.choice(['recursive', 'nonrecursive', 'numba']))
+    # the length unit of the distances handed to the solver: 2^k (exact scaling: the squared costs c * 4^k order exactly like the
+    # integers c the model sees); k = -24 is a movie in metres with micrometre steps (every squared sum far below 1e-9)
+    return dict(srcs=srcs, nd=nd, R2=R * R, strategy=rng.choice(['recursive', 'nonrecursive', 'numba']),
+                unit_exp=rng.choice([0, 0, 0, -24, -30, -12, 10]))
 
 
 def run_graph(g):
@@ -172,12 +175,13 @@ def run_graph(g):
     from trackpy.linking.utils import Point
     import math
     Point.reset_counter()
-    R = math.sqrt(g['R2'])
+    u = 2.0 ** g.get('unit_exp', 0)
+    R = math.sqrt(g['R2']) * u
     dps = [Point(1, (float(j),)) for j in range(g['nd'])]
     sps = []
     for i, cs in enumerate(g['srcs']):
         p = Point(0, (float(i),))
-        p.forward_cands = sorted([(dps[d], math.sqrt(c)) for d, c in cs], key=lambda x: x[1])
+        p.forward_cands = sorted([(dps[d], math.sqrt(c) * u) for d, c in cs], key=lambda x: x[1])
         sps.append(p)
     used = set(d for cs in g['srcs'] for d, _ in cs)
     dest_set = set(dps[d] for d in used)
@@ -559,6 +563,7 @@ def run(chk):
             continue
         graphs.append((g, a)); gterms.append(graph_term(g, a))
         chk.tally('graph strategy=' + g['strategy'])
+        chk.tally('graph distances in length unit 2^%d' % g.get('unit_exp', 0))
     gres = common.coq_eval_lists(chk.work, IMPORTS, GRAPH_FUNC, gterms, tag='graphs')
     for (g, a), r in zip(graphs, gres):
         chk.count(('graph', g), len(g['srcs']) >= 3)
